@@ -992,7 +992,7 @@ def _perturb_groups(rng, groups):
     if g and rng.random() < 0.15:
         name = sorted(g)[0]
         if g[name]:
-            g[name] = g[name][:-1] if rng.random() < 0.5 else g[name] + ["ghost2"]
+            g[name] = g[name][:-1] if (rng.random() < 0.5 or "ghost2" in g[name]) else g[name] + ["ghost2"]
     return g
 
 
